@@ -56,12 +56,17 @@ class SRange:
 # ----------------------------------------------------------------------------- int helpers
 def int_to_bytes(interp, x, length=1, byteorder="big", *, signed=False):
     c = sym.ctx()
+    SSIZE = 1 << 63         # CPython converts the length to a C ssize_t first (64-bit build assumed, listed)
     if is_sym(length):
+        if interp.test(Or(length < -SSIZE, length >= SSIZE)):
+            interp.py_raise(OverflowError, "Python int too large to convert to C ssize_t")
         if interp.test(length < 0):
             interp.py_raise(ValueError, "length argument must be non-negative")
         length = c.choose_int(length, "to_bytes length")
     if not isinstance(length, int):
         interp.py_raise(TypeError, "length must be int")
+    if length < -SSIZE or length >= SSIZE:
+        interp.py_raise(OverflowError, "Python int too large to convert to C ssize_t")
     if length < 0:
         interp.py_raise(ValueError, "length argument must be non-negative")
     if byteorder not in ("big", "little"):
@@ -162,7 +167,20 @@ def sbytes_attr(interp, b, name):
         return decode
     if name == "hex":
         return lambda *a: OPAQUE
-    if name in ("startswith", "endswith", "find", "index", "count", "strip", "rstrip", "lstrip", "replace"):
+    if name in ("find", "index"):
+        def find(sub, *rng):
+            # position of the first occurrence of a single byte: case analysis over the n+1 possible positions
+            if rng or not (isinstance(sub, (bytes, bytearray)) and len(sub) == 1 or isinstance(sub, int)):
+                raise Unsupported("bytes.%s with these arguments on symbolic bytes" % name)
+            s = sub if isinstance(sub, int) else sub[0]
+            for i, x in enumerate(b.items):
+                if interp.test(x == s):
+                    return i
+            if name == "index":
+                interp.py_raise(ValueError, "subsection not found")
+            return -1
+        return find
+    if name in ("startswith", "endswith", "count", "strip", "rstrip", "lstrip", "replace"):
         raise Unsupported("bytes.%s on symbolic bytes" % name)
     interp.py_raise(AttributeError, name)
 
